@@ -307,12 +307,16 @@ func checkPair(rm *refModel, a, b string, sel []bool, w []float64, got float64) 
 		}
 	}
 	obs.gain = bestL - lGot
-	if bestL-lGot > lkTol {
+	// very long alignments: the per-site tolerance would accept a distance 5-10 % off when the pair is nearly
+	// identical (the per-site likelihood is flat there); the gain is then also judged on the whole alignment
+	// (0.005 units of total log likelihood; measured on the unchanged code: below 1e-6 on 250 000 sites)
+	longGain := F.total >= 50000 && (bestL-lGot)*F.total > 0.005
+	if bestL-lGot > lkTol || longGain {
 		sig := "not-maximiser"
 		if !nearBetter && localMax(prof, x, lGot, lkTol) {
 			sig = "local-maximum" // a maximiser among its neighbours, but another mode of the likelihood is higher
 		}
-		return obs, sig, fmt.Sprintf("reported %.12g has lnL %.12g but distance %.12g has lnL %.12g (gain %.3g > %g); comparable weight %v, differing fraction %.6g; local maxima of the likelihood:%s", got, lGot, bestD, bestL, bestL-lGot, lkTol, F.total, F.offDia, modes())
+		return obs, sig, fmt.Sprintf("reported %.12g has lnL %.12g but distance %.12g has lnL %.12g (gain %.3g per site, tolerance %g; %.3g over the whole alignment); comparable weight %v, differing fraction %.6g; local maxima of the likelihood:%s", got, lGot, bestD, bestL, bestL-lGot, lkTol, (bestL-lGot)*F.total, F.total, F.offDia, modes())
 	}
 	return obs, "", ""
 }
